@@ -19,16 +19,46 @@ type Case struct {
 	R     string   `json:"recv"`    // receiver prior content, one pattern letter per element (row major)
 	A     string   `json:"a"`
 	B     string   `json:"b"`
+	CT    string   `json:"const_type,omitempty"` // element type of SparseConst*Vector operands (storage letter c) and of VasConst/VnewConst
+	Hist  string   `json:"history,omitempty"`    // read-only uses of one operand before the judged call, e.g. "a:S0.1,I" (hist.go)
 	Elem  string   `json:"elem_label,omitempty"`
 	Types []string `json:"failing_types,omitempty"`
 }
 
 func (cs *Case) String() string {
-	return fmt.Sprintf("%s[%s%s] dims=%v stor=%s recv=%q a=%q b=%q", cs.Op, cs.Type, map[bool]string{true: "+var", false: ""}[cs.Var], cs.Dims, cs.Stor, cs.R, cs.A, cs.B)
+	s := fmt.Sprintf("%s[%s%s] dims=%v stor=%s recv=%q a=%q b=%q", cs.Op, cs.Type, map[bool]string{true: "+var", false: ""}[cs.Var], cs.Dims, cs.Stor, cs.R, cs.A, cs.B)
+	if cs.CT != "" {
+		s += " const=" + cs.CT
+	}
+	if cs.Hist != "" {
+		s += " history=" + cs.Hist
+	}
+	return s
+}
+
+// slotVar: do the letters 1, m, z of slot i denote activated variables?
+func (cs *Case) slotVar(i int) bool { return cs.Var && cs.Stor[i] != 'c' }
+
+func (cs *Case) nvars() int {
+	return countVars(cs.A, cs.slotVar(1)) + countVars(cs.B, cs.slotVar(2)) + countVars(cs.R, cs.slotVar(0))
+}
+
+// eps: the epsilon passed to Equals (VequalsE/MequalsE carry it in the b slot).
+func (cs *Case) eps() float64 {
+	if cs.Op == "VequalsE" || cs.Op == "MequalsE" {
+		switch cs.B {
+		case "0.75":
+			return 0.75
+		case "0":
+			return 0
+		}
+	}
+	return 1e-8
 }
 
 type builder struct {
 	t    *tinfo
+	ct   *cinfo
 	varM bool
 	n    int // number of variables
 	next int
@@ -44,6 +74,43 @@ func (b *builder) elem(s ad.Scalar, c byte) {
 		}
 		b.next++
 	}
+}
+
+// cvec builds a SparseConst*Vector: NewSparseConst<T>Vector from the non-zero entries, or
+// (explicitly stored zero in the pattern) UnsafeSparseConst<T>Vector from sorted lists.
+func (b *builder) cvec(p string) ad.ConstVector {
+	if b.ct == nil {
+		panic("harness: case without const_type")
+	}
+	idx, vals, unsafe := []int{}, []float64{}, false
+	for i := 0; i < len(p); i++ {
+		switch p[i] {
+		case '_':
+		case 'e':
+			unsafe = true
+			fallthrough
+		default:
+			idx = append(idx, i)
+			vals = append(vals, letterVal(p[i]))
+		}
+	}
+	return b.ct.mk(idx, vals, len(p), unsafe)
+}
+
+// build creates the object of one slot (nil for list/order/epsilon slots).
+func (b *builder) build(s slot, stor byte, p string) any {
+	switch s.kind {
+	case 'v':
+		if stor == 'c' {
+			return b.cvec(p)
+		}
+		return b.vec(stor, p)
+	case 'm':
+		return b.mat(stor, p, s.r, s.c)
+	case 's':
+		return b.scalar(p)
+	}
+	return nil
 }
 
 func (b *builder) vec(stor byte, p string) ad.Vector {
@@ -101,6 +168,8 @@ type obs struct {
 	b        bool
 	dimErr   string
 	getter   string // Float64At disagrees with ConstAt
+	hist     string // a read of the history saw something else than the operand's content
+	rtyp     string // element type of the container the result was read from
 }
 
 func readScalar(s ad.ConstScalar, n int, varM bool) jet {
@@ -126,7 +195,8 @@ func readScalar(s ad.ConstScalar, n int, varM bool) jet {
 	return j
 }
 
-func (o *obs) readVec(v ad.ConstVector, want int, n int, varM bool) {
+func (o *obs) readVec(v ad.ConstVector, want int, n int, varM bool, typ string) {
+	o.rtyp = typ
 	if v.Dim() != want {
 		o.dimErr = fmt.Sprintf("Dim()=%d, expected %d", v.Dim(), want)
 		return
@@ -140,7 +210,8 @@ func (o *obs) readVec(v ad.ConstVector, want int, n int, varM bool) {
 	}
 }
 
-func (o *obs) readMat(m ad.ConstMatrix, r, c int, n int, varM bool) {
+func (o *obs) readMat(m ad.ConstMatrix, r, c int, n int, varM bool, typ string) {
+	o.rtyp = typ
 	if gr, gc := m.Dims(); gr != r || gc != c {
 		o.dimErr = fmt.Sprintf("Dims()=%dx%d, expected %dx%d", gr, gc, r, c)
 		return
@@ -183,14 +254,34 @@ func run(cs *Case, t *tinfo) (o *obs) {
 			o.pmsg = fmt.Sprint(r)
 		}
 	}()
-	b := &builder{t: t, varM: cs.Var}
-	b.n = countVars(cs.A, cs.Var) + countVars(cs.B, cs.Var) + countVars(cs.R, cs.Var)
+	b := &builder{t: t, varM: cs.Var, ct: ctypeByName(cs.CT)}
+	b.n = cs.nvars()
 	n := b.n
-	sr, sa, sb := cs.Stor[0], cs.Stor[1], cs.Stor[2]
 	d := cs.Dims
+	slots := opSlots(cs.Op, d)
+	pats := [3]string{cs.R, cs.A, cs.B}
+	var ob [3]any
+	for _, i := range []int{1, 2, 0} { // variables are numbered a, b, receiver
+		ob[i] = b.build(slots[i], cs.Stor[i], pats[i])
+	}
+	if cs.Hist != "" {
+		hs, steps, err := parseHist(cs.Hist)
+		if err != nil || ob[hs] == nil {
+			panic("harness: bad history " + cs.Hist)
+		}
+		hb := &histRun{pat: pats[hs], typ: cs.Type, s: slots[hs]}
+		if cs.Stor[hs] == 'c' {
+			hb.typ = cs.CT
+		}
+		o.hist = hb.apply(ob[hs], steps)
+	}
+	vec := func(i int) ad.Vector { return ob[i].(ad.Vector) }
+	cv := func(i int) ad.ConstVector { return ob[i].(ad.ConstVector) }
+	mat := func(i int) ad.Matrix { return ob[i].(ad.Matrix) }
+	sc := func(i int) ad.Scalar { return ob[i].(ad.Scalar) }
 	switch cs.Op {
 	case "VaddV", "VsubV", "VmulV", "VdivV":
-		a, bb, r := b.vec(sa, cs.A), b.vec(sb, cs.B), b.vec(sr, cs.R)
+		a, bb, r := cv(1), cv(2), vec(0)
 		switch cs.Op {
 		case "VaddV":
 			r.VaddV(a, bb)
@@ -201,9 +292,9 @@ func run(cs *Case, t *tinfo) (o *obs) {
 		case "VdivV":
 			r.VdivV(a, bb)
 		}
-		o.readVec(r, d[0], n, cs.Var)
+		o.readVec(r, d[0], n, cs.Var, t.name)
 	case "VaddS", "VsubS", "VmulS", "VdivS":
-		a, s, r := b.vec(sa, cs.A), b.scalar(cs.B), b.vec(sr, cs.R)
+		a, s, r := cv(1), sc(2), vec(0)
 		switch cs.Op {
 		case "VaddS":
 			r.VaddS(a, s)
@@ -214,43 +305,52 @@ func run(cs *Case, t *tinfo) (o *obs) {
 		case "VdivS":
 			r.VdivS(a, s)
 		}
-		o.readVec(r, d[0], n, cs.Var)
+		o.readVec(r, d[0], n, cs.Var, t.name)
 	case "VdotV":
-		a, bb, r := b.vec(sa, cs.A), b.vec(sb, cs.B), b.scalar(cs.R)
-		r.VdotV(a, bb)
+		r := sc(0)
+		r.VdotV(cv(1), cv(2))
 		o.res = []jet{readScalar(r, n, cs.Var)}
 	case "MdotV":
-		a, bb, r := b.mat(sa, cs.A, d[0], d[1]), b.vec(sb, cs.B), b.vec(sr, cs.R)
-		r.MdotV(a, bb)
-		o.readVec(r, d[0], n, cs.Var)
+		r := vec(0)
+		r.MdotV(mat(1), cv(2))
+		o.readVec(r, d[0], n, cs.Var, t.name)
 	case "VdotM":
-		a, bb, r := b.vec(sa, cs.A), b.mat(sb, cs.B, d[0], d[1]), b.vec(sr, cs.R)
-		r.VdotM(a, bb)
-		o.readVec(r, d[1], n, cs.Var)
+		r := vec(0)
+		r.VdotM(cv(1), mat(2))
+		o.readVec(r, d[1], n, cs.Var, t.name)
 	case "Vset":
-		a, r := b.vec(sa, cs.A), b.vec(sr, cs.R)
-		r.Set(a)
-		o.readVec(r, d[0], n, cs.Var)
-	case "Vequals":
-		a, r := b.vec(sa, cs.A), b.vec(sr, cs.R)
-		o.isB, o.b = true, r.Equals(a, 1e-8)
-		o.readVec(r, d[0], n, cs.Var)
+		r := vec(0)
+		r.Set(cv(1))
+		o.readVec(r, d[0], n, cs.Var, t.name)
+	case "Vequals", "VequalsE":
+		r := cv(0)
+		o.isB, o.b = true, r.Equals(cv(1), cs.eps())
+		rt := t.name
+		if cs.Stor[0] == 'c' {
+			rt = cs.CT
+		}
+		o.readVec(r, d[0], n, cs.slotVar(0), rt)
 	case "Vreset":
-		r := b.vec(sr, cs.R)
+		r := vec(0)
 		r.Reset()
-		o.readVec(r, d[0], n, cs.Var)
+		o.readVec(r, d[0], n, cs.Var, t.name)
 	case "VasDense":
-		o.readVec(ad.AsDenseVector(t.t, b.vec(sa, cs.A)), d[0], n, cs.Var)
+		o.readVec(ad.AsDenseVector(t.t, cv(1)), d[0], n, cs.Var, t.name)
 	case "VasSparse":
-		o.readVec(ad.AsSparseVector(t.t, b.vec(sa, cs.A)), d[0], n, cs.Var)
+		o.readVec(ad.AsSparseVector(t.t, cv(1)), d[0], n, cs.Var, t.name)
+	case "VasConst":
+		o.readVec(b.ct.as(cv(1)), d[0], 0, false, cs.CT)
 	case "VnewSparse":
 		idx, vals := lists(cs.A, cs.B)
-		o.readVec(t.newSparseVec(idx, vals, d[0]), d[0], 0, false)
+		o.readVec(t.newSparseVec(idx, vals, d[0]), d[0], 0, false, t.name)
+	case "VnewConst":
+		idx, vals := lists(cs.A, cs.B)
+		o.readVec(b.ct.mk(idx, vals, d[0], false), d[0], 0, false, cs.CT)
 	case "VnewDense":
 		_, vals := lists(cs.A, "asc")
-		o.readVec(t.newDenseVec(vals), d[0], 0, false)
+		o.readVec(t.newDenseVec(vals), d[0], 0, false, t.name)
 	case "MaddM", "MsubM", "MmulM", "MdivM":
-		a, bb, r := b.mat(sa, cs.A, d[0], d[1]), b.mat(sb, cs.B, d[0], d[1]), b.mat(sr, cs.R, d[0], d[1])
+		a, bb, r := mat(1), mat(2), mat(0)
 		switch cs.Op {
 		case "MaddM":
 			r.MaddM(a, bb)
@@ -261,9 +361,9 @@ func run(cs *Case, t *tinfo) (o *obs) {
 		case "MdivM":
 			r.MdivM(a, bb)
 		}
-		o.readMat(r, d[0], d[1], n, cs.Var)
+		o.readMat(r, d[0], d[1], n, cs.Var, t.name)
 	case "MaddS", "MsubS", "MmulS", "MdivS":
-		a, s, r := b.mat(sa, cs.A, d[0], d[1]), b.scalar(cs.B), b.mat(sr, cs.R, d[0], d[1])
+		a, s, r := mat(1), sc(2), mat(0)
 		switch cs.Op {
 		case "MaddS":
 			r.MaddS(a, s)
@@ -274,45 +374,45 @@ func run(cs *Case, t *tinfo) (o *obs) {
 		case "MdivS":
 			r.MdivS(a, s)
 		}
-		o.readMat(r, d[0], d[1], n, cs.Var)
+		o.readMat(r, d[0], d[1], n, cs.Var, t.name)
 	case "MdotM":
-		a, bb, r := b.mat(sa, cs.A, d[0], d[1]), b.mat(sb, cs.B, d[1], d[2]), b.mat(sr, cs.R, d[0], d[2])
-		r.MdotM(a, bb)
-		o.readMat(r, d[0], d[2], n, cs.Var)
+		r := mat(0)
+		r.MdotM(mat(1), mat(2))
+		o.readMat(r, d[0], d[2], n, cs.Var, t.name)
 	case "Outer":
-		a, bb, r := b.vec(sa, cs.A), b.vec(sb, cs.B), b.mat(sr, cs.R, d[0], d[1])
-		r.Outer(a, bb)
-		o.readMat(r, d[0], d[1], n, cs.Var)
+		r := mat(0)
+		r.Outer(cv(1), cv(2))
+		o.readMat(r, d[0], d[1], n, cs.Var, t.name)
 	case "Mset":
-		a, r := b.mat(sa, cs.A, d[0], d[1]), b.mat(sr, cs.R, d[0], d[1])
-		r.Set(a)
-		o.readMat(r, d[0], d[1], n, cs.Var)
-	case "Mequals":
-		a, r := b.mat(sa, cs.A, d[0], d[1]), b.mat(sr, cs.R, d[0], d[1])
-		o.isB, o.b = true, r.Equals(a, 1e-8)
-		o.readMat(r, d[0], d[1], n, cs.Var)
+		r := mat(0)
+		r.Set(mat(1))
+		o.readMat(r, d[0], d[1], n, cs.Var, t.name)
+	case "Mequals", "MequalsE":
+		r := mat(0)
+		o.isB, o.b = true, r.Equals(mat(1), cs.eps())
+		o.readMat(r, d[0], d[1], n, cs.Var, t.name)
 	case "Mreset":
-		r := b.mat(sr, cs.R, d[0], d[1])
+		r := mat(0)
 		r.Reset()
-		o.readMat(r, d[0], d[1], n, cs.Var)
+		o.readMat(r, d[0], d[1], n, cs.Var, t.name)
 	case "MsetIdentity":
-		r := b.mat(sr, cs.R, d[0], d[1])
+		r := mat(0)
 		r.SetIdentity()
-		o.readMat(r, d[0], d[1], n, cs.Var)
+		o.readMat(r, d[0], d[1], n, cs.Var, t.name)
 	case "MasDense":
-		o.readMat(ad.AsDenseMatrix(t.t, b.mat(sa, cs.A, d[0], d[1])), d[0], d[1], n, cs.Var)
+		o.readMat(ad.AsDenseMatrix(t.t, mat(1)), d[0], d[1], n, cs.Var, t.name)
 	case "MasSparse":
-		o.readMat(ad.AsSparseMatrix(t.t, b.mat(sa, cs.A, d[0], d[1])), d[0], d[1], n, cs.Var)
+		o.readMat(ad.AsSparseMatrix(t.t, mat(1)), d[0], d[1], n, cs.Var, t.name)
 	case "MnewSparse":
 		idx, vals := lists(cs.A, cs.B)
 		ri, ci := make([]int, len(idx)), make([]int, len(idx))
 		for k, x := range idx {
 			ri[k], ci[k] = x/d[1], x%d[1]
 		}
-		o.readMat(t.newSparseMat(ri, ci, vals, d[0], d[1]), d[0], d[1], 0, false)
+		o.readMat(t.newSparseMat(ri, ci, vals, d[0], d[1]), d[0], d[1], 0, false, t.name)
 	case "MnewDense":
 		_, vals := lists(cs.A, "asc")
-		o.readMat(t.newDenseMat(vals, d[0], d[1]), d[0], d[1], 0, false)
+		o.readMat(t.newDenseMat(vals, d[0], d[1]), d[0], d[1], 0, false, t.name)
 	default:
 		panic("harness: unknown op " + cs.Op)
 	}
@@ -323,7 +423,7 @@ func run(cs *Case, t *tinfo) (o *obs) {
 func denseTwin(cs *Case) *Case {
 	tw := *cs
 	tw.Stor = strings.Map(func(r rune) rune {
-		if r == 's' {
+		if r == 's' || r == 'c' {
 			return 'd'
 		}
 		return r
